@@ -15,7 +15,7 @@ func init() { registry["C10"] = propC10 }
 func propC10() *Property {
 	return &Property{
 		ID:          "C10",
-		Explanation: "Structural clauses of collection paging only. Decided: (R1) the walk is bounded: the only recursion of harvestWithEmptyCount is guarded by the false edge of `emptyCount > 3`, the counter is incremented exactly on the empty-page edge, and every early return delivers exactly one failure item with a nil continuation; (R2) 'consecutive' means reset: on every path that does not increment the counter, the counter handed to the next page was last assigned a constant (it does not depend on the incoming counter); (R3) slot/source agreement and order: element k of this page is stored at slot k from c.elements[k+startingPoint] (difference of the linear index forms is exactly startingPoint), the result is this page's items followed by the later pages', and the next page is asked for amount-amountFromThisPage items from offset 0; (R4) continuation shape: the page names itself as continuation only under length > amount+startingPoint with next offset amount+startingPoint, otherwise it forwards the deeper result or ends with nil. (R5) in NewCollectionFromObject every path to a store of the following-page link is enumerated; `first` is read only on paths that know the kind is Collection/OrderedCollection and `next` only on paths that exclude both (pages inherit `first`, so a page falling back to it loops for ever). (R6) Harvest and everything it calls write nothing reachable from the collection and no package-level state (mutating methods of sync/atomic and sync.Map values count as writes). NOT decided: that these pieces compose to 'every item exactly once, in order' for every layout and chunking, prefix-of-truth on cyclic chains, and the unsigned arithmetic of amountFromThisPage (value-level reasoning).",
+		Explanation: "Structural clauses of collection paging only. Decided: (R1) the walk is bounded: the only recursion of harvestWithEmptyCount is guarded by the false edge of `emptyCount > 3`, the counter is incremented exactly on the empty-page edge, and every early return delivers exactly one failure item with a nil continuation; (R2) 'consecutive' means reset: on every path that does not increment the counter, the counter handed to the next page was last assigned a constant (it does not depend on the incoming counter); (R3) slot/source agreement and order: element k of this page is stored at slot k from c.elements[k+startingPoint] (difference of the linear index forms is exactly startingPoint), the result is this page's items followed by the later pages', and the next page is asked for amount-amountFromThisPage items from offset 0; (R4) continuation shape: the page names itself as continuation only under length > amount+startingPoint with next offset amount+startingPoint, otherwise it forwards the deeper result or ends with nil. (R5) in NewCollectionFromObject every path to a store of the following-page link is enumerated; `first` is read only on paths that know the kind is Collection/OrderedCollection and `next` only on paths that exclude both (pages inherit `first`, so a page falling back to it loops for ever). (R6) Harvest and everything it calls write nothing reachable from the collection and no package-level state (mutating methods of sync/atomic and sync.Map values count as writes). (R7) at every call of Harvest outside the implementing packages the collection to go on with and the offset to go on from are both used and end up in the same page (or are returned on together). NOT decided: that these pieces compose to 'every item exactly once, in order' for every layout and chunking, prefix-of-truth on cyclic chains, and the unsigned arithmetic of amountFromThisPage (value-level reasoning).",
 		Assumptions: []string{"goroutine fan-out in harvest is race-free (C08.R5)"},
 		Rules: []Rule{
 			{ID: "C10.R1", Title: "bounded walk: threshold guard, increment on empty pages only, failure returns", Floor: 3, Run: c10R1},
@@ -24,6 +24,7 @@ func propC10() *Property {
 			{ID: "C10.R4", Title: "continuation shape", Floor: 3, Run: c10R4},
 			{ID: "C10.R5", Title: "the following page is first for a collection and next for a page, never the other way round", Floor: 2, Run: c10R5},
 			{ID: "C10.R6", Title: "harvesting reads the collection and never changes it", Floor: 1, Run: c10R6},
+			{ID: "C10.R7", Title: "the reader keeps the continuation (collection and offset) together", Floor: 2, Run: c10R7},
 		},
 	}
 }
